@@ -38,6 +38,7 @@ func runC06(c *Ctx) {
 	c.Rule("SUPPRESSION-REMOVES", "suppression can only remove annotations, only under a configured condition, and only for the named rule", 6)
 	c.Rule("EXCLUDE-IMPORTS", "the exclude-imports switch is read by the filter and set only from the option", 2)
 	c.Rule("SORTED", "selected rules and merged annotations are sorted", 2)
+	c.Rule("MERGE-COMPLETE", "annotations of all plugin clients are merged under one shared mutex and sorted after the barrier (no client's batch can be lost)", 1)
 
 	t := extractCheckTables(p)
 	for _, sn := range []string{"V1Beta1Spec", "V1Spec", "V2Spec"} {
@@ -210,6 +211,7 @@ func runC06(c *Ctx) {
 	}
 
 	c06Suppression(c, t)
+	goAggRule(c, "MERGE-COMPLETE", func(rel string) bool { return rel == "private/bufpkg/bufcheck" })
 }
 
 func c06Suppression(c *Ctx, t *checkTables) {
@@ -263,6 +265,80 @@ func c06Suppression(c *Ctx, t *checkTables) {
 			}
 		}
 		c.Ob(rule, "annotationsToFilteredFileAnnotationSetOrError/uses-filtered", af.Decl.Pos(), ok, true, "the annotations converted for output are the filtered ones: %v", ok)
+	}
+	// both locations of an annotation are consulted: the against-location test stays reachable after the current
+	// location was examined and not ignored
+	if ia := p.Func("private/bufpkg/bufcheck", "ignoreAnnotation"); ia != nil {
+		iinfo := ia.Info()
+		g := p.CFGOf(ia.Decl.Body, iinfo)
+		var calls []*ast.CallExpr
+		ast.Inspect(ia.Decl.Body, func(n ast.Node) bool {
+			if call, ok := n.(*ast.CallExpr); ok {
+				if fn := Callee(iinfo, call); fn != nil && fn.Name() == "ignoreFileLocation" {
+					calls = append(calls, call)
+				}
+			}
+			return true
+		})
+		mentions := func(n ast.Node, name string) bool {
+			found := false
+			ast.Inspect(ia.Decl.Body, func(m ast.Node) bool {
+				if as, ok := m.(*ast.AssignStmt); ok && len(as.Rhs) == 1 {
+					if call, ok := as.Rhs[0].(*ast.CallExpr); ok {
+						if sel, ok := call.Fun.(*ast.SelectorExpr); ok && sel.Sel.Name == name {
+							// the variable defined here is the argument of n
+							if o := identObj(iinfo, as.Lhs[0]); o != nil && usesObj(iinfo, n, o) {
+								found = true
+							}
+						}
+					}
+				}
+				return true
+			})
+			return found
+		}
+		var cur, against *ast.CallExpr
+		for _, call := range calls {
+			if len(call.Args) == 3 && mentions(call.Args[2], "AgainstFileLocation") && !mentions(call.Args[2], "FileLocation") {
+				against = call
+			} else if len(call.Args) == 3 && mentions(call.Args[2], "FileLocation") && !mentions(call.Args[2], "AgainstFileLocation") {
+				cur = call
+			}
+		}
+		ok := cur != nil && against != nil && g.Reachable(cur, against)
+		c.Ob(rule, "ignoreAnnotation/both-locations", ia.Decl.Pos(), ok, true,
+			"the current and the against location are each passed to ignoreFileLocation, and the against test is reachable after the current one was examined: %v", ok)
+	} else {
+		c.Fail(rule, "ignoreAnnotation", token.NoPos, "not found")
+	}
+	// FRESH-SETS: path sets stored into the per-rule result maps are freshly made, never an input set (aliasing would let
+	// a later merge for one rule leak paths into another rule's suppression)
+	for _, name := range []string{"transformRuleOrCategoryIDToIgnoreRootPathsToRuleIDs", "transformRuleIDToIgnoreRootPathsToUndeprecated"} {
+		tf := p.Func("private/bufpkg/bufcheck", name)
+		if tf == nil {
+			c.Fail(rule, name+"/fresh-sets", token.NoPos, "not found")
+			continue
+		}
+		sf := p.SSAFunc(tf.Obj)
+		okF, n := true, 0
+		for _, f := range allSSAFuncs(sf) {
+			for _, b := range f.Blocks {
+				for _, ins := range b.Instrs {
+					mu, ok := ins.(*ssa.MapUpdate)
+					if !ok {
+						continue
+					}
+					if _, isMap := mu.Value.Type().Underlying().(*types.Map); !isMap {
+						continue
+					}
+					n++
+					if _, fresh := stripConv(mu.Value).(*ssa.MakeMap); !fresh {
+						okF = false
+					}
+				}
+			}
+		}
+		c.Ob(rule, name+"/fresh-sets", tf.Decl.Pos(), okF && n > 0, true, "%d store(s) of a path set into the per-rule result, each a freshly made map (no aliasing of input sets): %v", n, okF)
 	}
 	// (5b) ignoreFileLocation: every `return true` guarded by a condition reading config
 	il := p.Func("private/bufpkg/bufcheck", "ignoreFileLocation")
